@@ -19,19 +19,27 @@ def oracle(ctx, cmds, routs):
                 adds_ok.append((c["regex"], c["operation"], c["alg"], c["cfg"]))
             elif r not in ("ValueError", "ctor:ValueError"):
                 ctx.fail(f"update_quantization_recipe raised {r}", {"cmds": cmds}, "add-raised-" + r)
+        elif c["k"] == "load":
+            if r == "ok" and c["recipe_plain"] == []:
+                adds_ok = []          # a load is "reset, then add": loading the empty recipe leaves no rule
+            elif r != "ok":
+                ctx.fail(f"load_quantization_recipe([]) raised {r}", {"cmds": cmds}, "load-raised-" + str(r))
         elif c["k"] == "resolve":
             alg, cfg = fr.spec_resolve(adds_ok, c["opname"], c["scope"])
             want = {"alg": alg, "cfg": fr.plain(fr.mk_cfg(cfg).to_dict())}
             if json.dumps(want, sort_keys=True) != json.dumps(r, sort_keys=True):
                 ctx.fail("resolved (algorithm, config) is not the last applicable rule",
-                         {"cmds": [x for x in cmds if x["k"] == "add"], "query": c, "got": r, "want": want}, "resolve-not-last-applicable")
+                         {"cmds": [x for x in cmds if x["k"] in ("add", "load")], "query": c, "got": r, "want": want}, "resolve-not-last-applicable")
                 return False
     return True
 
 
 def history(adds, rng=None):
     cmds = []
-    for a in adds:
+    reset_at = rng.randrange(len(adds)) if (rng is not None and adds and rng.random() < 0.3) else None
+    for j, a in enumerate(adds):
+        if j == reset_at:
+            cmds.append({"k": "load", "recipe_plain": []})   # loading an empty recipe resets the rules
         cmds.append(a)
         if rng is not None and rng.random() < 0.5:
             # observations between updates: exports, resolutions, need_calibration (must not influence anything)
@@ -46,7 +54,10 @@ def history(adds, rng=None):
 def check_fresh(ctx, cmds, routs):
     """resolution and export are pure functions of the rule list: a fresh Quantizer that only replays the
     updates (no observations in between) gives the same final export and the same resolutions"""
-    adds = [c for c in cmds if c["k"] == "add"]
+    adds = [c for c in cmds if c["k"] in ("add", "load")]
+    if any(c["k"] == "load" for c in adds):   # only what follows the last reset matters to a fresh object
+        last = max(i for i, c in enumerate(adds) if c["k"] == "load")
+        adds = adds[last + 1:]
     tail = [{"k": "get"}] + fr.queries()
     fresh = fr.RealRecipe()
     for a in adds:
@@ -147,6 +158,25 @@ def run(ctx):
             if c["k"] == "add":
                 ctx.errkinds[r] = ctx.errkinds.get(r, 0) + 1
         ctx.tag("long_history")
+    # "which operators are quantized in quantize() output": the scope an operator is matched with is ALL its result names joined by
+    # ';' (multi-result operators, the INPUT pseudo-operator of multi-input graphs), for calibration and quantization alike
+    from .. import fam_pipeline as fp
+    from .. import gen_models as gm
+    from .. import oracles as orc
+    from .. import pipeline as pl
+
+    def gen(rng_, i):
+        mb, info = gm.gen_model(rng_, n_ops=rng_.randint(1, 4), n_subgraphs=1, kinds=["SPLIT", "SPLIT", "TANH", "FULLY_CONNECTED", "ADD", "RESHAPE"],
+                                p_unsupported=0.0, alias_sig=0.0)
+        data = gm.random_inputs(mb, rng_, n=1)
+        cmds = pl.gen_recipe(rng_, mb, kind="mixed")
+        return fp.Case(mb, info, cmds=cmds, data=data, desc=[(c["regex"], c["operation"], c["alg"]) for c in cmds])
+
+    def per_case(case, res):
+        if res["status"] == "ok":
+            orc.oracle_c03(ctx, case, res, fp.failer(ctx, case, prefix="quantize() output vs resolved rule: "))
+    if ctx.left() > 40:
+        fp.explore(ctx, drv, 150 if ctx.tier == "quick" else 2500, per_case, gen=gen, graph_corr=False, pipe_corr=True, reserve_s=15)
     drv.close()
     return common.finish(ctx)
 
